@@ -469,9 +469,12 @@ Definition step (w : world) (o : op) : list obs * world :=
     | _ => ([BUnsupported], w)
     end
   | OSub t =>
-    let w1 := with_subs w (if existsb (bytes_eqb t) (w_subs w) then w_subs w else w_subs w ++ [t]) in
+    (* the set decides: peers are told only when it changes *)
+    if existsb (bytes_eqb t) (w_subs w) then ([BSubOk true], w) else
+    let w1 := with_subs w (w_subs w ++ [t]) in
     ([BSubOk true], fold_left (fun acc k => write_msg acc k (sub_msg Gen.sub_op_sub t)) (w_peers w1) w1)
   | OUnsub t =>
+    if negb (existsb (bytes_eqb t) (w_subs w)) then ([BSubOk false], w) else
     let w1 := with_subs w (filter (fun x => negb (bytes_eqb x t)) (w_subs w)) in
     ([BSubOk false], fold_left (fun acc k => write_msg acc k (sub_msg Gen.sub_op_unsub t)) (w_peers w1) w1)
   end.
